@@ -1,6 +1,8 @@
 package main
 
 import (
+	"testing/iotest"
+	"io"
 	"bytes"
 	"encoding/binary"
 	"fmt"
@@ -11,13 +13,58 @@ import (
 	"github.com/foxboron/go-uefi/efi/signature"
 )
 
+// srcReader hands the decoder one of the io.Reader kinds callers use, over a private copy of the
+// input, and afterwards overwrites everything the decoder could still be pointing into
+type srcReader struct {
+	r       io.Reader
+	kind    string
+	rest    int // bytes left unread when clobber was called
+	clobber func()
+}
+
+var readerKinds = []string{"bytes.Reader", "bytes.Buffer", "one-byte"}
+
+func newSrcReader(kind string, b []byte) *srcReader {
+	src := append(make([]byte, 0, len(b)+64), b...)
+	s := &srcReader{kind: kind}
+	scribble := func() {
+		full := src[:cap(src)]
+		for i := range full {
+			full[i] = 0xEE
+		}
+	}
+	switch kind {
+	case "bytes.Buffer":
+		buf := bytes.NewBuffer(src)
+		s.r = buf
+		s.clobber = func() {
+			s.rest = buf.Len()
+			buf.Next(buf.Len()) // drain, as a caller reading the payload would
+			buf.Reset()
+			buf.Write(bytes.Repeat([]byte{0xEE}, len(b)+32)) // and reuse the buffer
+			scribble()
+		}
+	case "one-byte":
+		br := bytes.NewReader(src)
+		s.r = iotest.OneByteReader(br)
+		s.clobber = func() { s.rest = br.Len(); scribble() }
+	default:
+		s.kind = "bytes.Reader"
+		br := bytes.NewReader(src)
+		s.r = br
+		s.clobber = func() { s.rest = br.Len(); scribble() }
+	}
+	return s
+}
+
 func c10EvalAuth(c *Ctx, cs Case) {
 	b := unhx(cs.S("bytes"))
 	cls := cs.S("class")
-	r := bytes.NewReader(b)
+	r := newSrcReader(cs.S("reader"), b)
 	var d *signature.EFIVariableAuthentication2
 	var err error
-	panicked, pmsg := safely(func() { d, err = signature.ReadEFIVariableAuthencation2(r) })
+	panicked, pmsg := safely(func() { d, err = signature.ReadEFIVariableAuthencation2(r.r) })
+	r.clobber() // the decoded value must not depend on the source after the call
 	goObs := "err"
 	var reenc []byte
 	if panicked {
@@ -29,9 +76,9 @@ func c10EvalAuth(c *Ctx, cs Case) {
 		d.Marshal(&mb)
 		reenc = mb.Bytes()
 		goObs = fmt.Sprintf("ok time=%s len=%d rev=%d type=%d guid=%s data=%s rest=%d reenc=%s", hx(tb.Bytes()), d.AuthInfo.Header.Length, d.AuthInfo.Header.Revision,
-			uint16(d.AuthInfo.Header.CertType), hx(wireGUID(d.AuthInfo.CertType)), hx(d.AuthInfo.CertData), r.Len(), hx(reenc))
+			uint16(d.AuthInfo.Header.CertType), hx(wireGUID(d.AuthInfo.CertType)), hx(d.AuthInfo.CertData), r.rest, hx(reenc))
 	}
-	c.Count(cs.Key(), len(b) > 40, "auth/"+cls+"/"+strings.SplitN(goObs, " ", 2)[0])
+	c.Count(cs.Key(), len(b) > 40, "auth/"+cls+"/"+r.kind+"/"+strings.SplitN(goObs, " ", 2)[0])
 	if len(b) < 120 {
 		c.Sample(cs)
 	}
@@ -90,19 +137,20 @@ func c10EvalAuth(c *Ctx, cs Case) {
 
 func c10EvalWinCert(c *Ctx, cs Case) {
 	b := unhx(cs.S("bytes"))
-	r := bytes.NewReader(b)
+	r := newSrcReader(cs.S("reader"), b)
 	var w signature.WINCertificate
 	var err error
-	panicked, pmsg := safely(func() { w, err = signature.ReadWinCertificate(r) })
+	panicked, pmsg := safely(func() { w, err = signature.ReadWinCertificate(r.r) })
+	r.clobber()
 	goObs := "err"
 	var reenc bytes.Buffer
 	if panicked {
 		goObs = "panic"
 	} else if err == nil {
 		signature.WriteWinCertificate(&reenc, &w)
-		goObs = fmt.Sprintf("ok len=%d rev=%d type=%d cert=%s rest=%d reenc=%s", w.Length, w.Revision, uint16(w.CertType), hx(w.Certificate), r.Len(), hx(reenc.Bytes()))
+		goObs = fmt.Sprintf("ok len=%d rev=%d type=%d cert=%s rest=%d reenc=%s", w.Length, w.Revision, uint16(w.CertType), hx(w.Certificate), r.rest, hx(reenc.Bytes()))
 	}
-	c.Count(cs.Key(), len(b) > 8, "wincert/"+cs.S("class")+"/"+strings.SplitN(goObs, " ", 2)[0])
+	c.Count(cs.Key(), len(b) > 8, "wincert/"+cs.S("class")+"/"+r.kind+"/"+strings.SplitN(goObs, " ", 2)[0])
 	c.Trace()
 	if m := c.Drv.Ask("wincert.read", hx(b)); m != goObs {
 		c.Fail(Failure{Kind: "tie", What: "ReadWinCertificate: model and implementation disagree", Case: cs, Model: clip(m), Go: clip(goObs)})
@@ -120,7 +168,7 @@ func c10EvalWinCert(c *Ctx, cs Case) {
 				c.Fail(Failure{Kind: "property", What: "a well-formed WIN_CERTIFICATE was rejected", Case: cs, Go: goObs})
 				return
 			}
-			if r.Len() != len(b)-dw || !bytes.Equal(w.Certificate, b[8:dw]) || int(w.Length) != dw || uint16(w.CertType) != binary.LittleEndian.Uint16(b[6:]) {
+			if r.rest != len(b)-dw || !bytes.Equal(w.Certificate, b[8:dw]) || int(w.Length) != dw || uint16(w.CertType) != binary.LittleEndian.Uint16(b[6:]) {
 				c.Fail(Failure{Kind: "property", What: "WIN_CERTIFICATE not decoded by its declared length", Case: cs, Go: clip(goObs), Spec: fmt.Sprintf("consume %d, rest %d", dw, len(b)-dw)})
 			}
 			if !bytes.Equal(reenc.Bytes(), b[:dw]) {
@@ -167,7 +215,9 @@ func c10Gen(c *Ctx) {
 	fx := authFixtures(c)
 	c.Note("auth_fixtures", len(fx))
 	for _, b := range fx {
-		c10EvalAuth(c, Case{"op": "auth", "class": "fixture", "bytes": hx(b)})
+		for _, k := range readerKinds {
+			c10EvalAuth(c, Case{"op": "auth", "class": "fixture", "reader": k, "bytes": hx(b)})
+		}
 	}
 	pk7 := wireGUID(signature.EFI_CERT_TYPE_PKCS7_GUID)
 	for i := 0; i < c.N(800, 40000) && c.NFailures() < 8; i++ {
@@ -195,7 +245,14 @@ func c10Gen(c *Ctx) {
 				dw, cls = dw-uint32(1+c.Rng.Intn(n)), "shorter"
 			}
 		}
-		c10EvalAuth(c, Case{"op": "auth", "class": cls, "bytes": hx(mkAuth(time, dw, rev, typ, guid, data, payload))})
+		c10EvalAuth(c, Case{"op": "auth", "class": cls, "reader": readerKinds[i%3], "bytes": hx(mkAuth(time, dw, rev, typ, guid, data, payload))})
+	}
+	// the top of the stated range: certificate data of up to 64 KiB, where dwLength crosses 2^16
+	for i, n := range []int{65511, 65512, 65513, 65519, 65520, 65521, 65527, 65528, 65529, 65535, 65536} {
+		if c.Quick() && i%2 == 1 {
+			continue
+		}
+		c10EvalAuth(c, Case{"op": "auth", "class": "wf-64k", "reader": readerKinds[i%3], "bytes": hx(mkAuth(randBytes(c, 16), uint32(24+n), 0x0200, 0x0EF1, pk7, randBytes(c, n), randBytes(c, 5)))})
 	}
 	// library-produced descriptors are exercised by C06; plain WIN_CERTIFICATEs:
 	for i := 0; i < c.N(500, 20000) && c.NFailures() < 8; i++ {
@@ -221,13 +278,21 @@ func c10Gen(c *Ctx) {
 		if cls != "too-long" {
 			b.Write(randBytes(c, c.Rng.Intn(12)))
 		}
-		c10EvalWinCert(c, Case{"op": "wincert", "class": cls, "bytes": hx(b.Bytes())})
+		c10EvalWinCert(c, Case{"op": "wincert", "class": cls, "reader": readerKinds[i%3], "bytes": hx(b.Bytes())})
+	}
+	for i, n := range []int{65527, 65528, 65529, 65535, 65536} {
+		var b bytes.Buffer
+		binary.Write(&b, binary.LittleEndian, uint32(8+n))
+		binary.Write(&b, binary.LittleEndian, uint16(0x0200))
+		binary.Write(&b, binary.LittleEndian, uint16(2))
+		b.Write(randBytes(c, n+3))
+		c10EvalWinCert(c, Case{"op": "wincert", "class": "wf-64k", "reader": readerKinds[i%3], "bytes": hx(b.Bytes())})
 	}
 }
 
 func init() {
 	register("C10", &PropDef{
-		Rule:   "descriptors with any timestamp, certificate-data length in {0,1,7,16,100,1500,random<=64KiB}, PKCS7 or random type GUID, followed by payloads of 0..300 bytes; variants with a wrong revision, a declared length beyond the data, and a declared length shorter than the data (surplus is payload); the .auth fixtures of the repository; plain WIN_CERTIFICATEs of all three certificate types. Inputs on which the unrepaired decoder would terminate the process (body shorter than a GUID, dwLength < 8) belong to C13/C14 and are generated there. Non-trivial: longer than the fixed header; distinct = distinct byte strings.",
+		Rule:   "descriptors with any timestamp, certificate-data length in {0,1,7,16,100,1500,random<=64KiB, and 65511..65536 where dwLength crosses 2^16}, PKCS7 or random type GUID, followed by payloads of 0..300 bytes; variants with a wrong revision, a declared length beyond the data, and a declared length shorter than the data (surplus is payload); the .auth fixtures of the repository; plain WIN_CERTIFICATEs of all three certificate types (up to 64 KiB). Each input is handed to the decoder through a bytes.Reader, a bytes.Buffer or a one-byte-at-a-time reader over a private copy, and the source (buffer drained, reset and reused; backing array overwritten) is destroyed before the decoded value is inspected and re-encoded. Inputs on which the unrepaired decoder would terminate the process (body shorter than a GUID, dwLength < 8) belong to C13/C14 and are generated there. Non-trivial: longer than the fixed header; distinct = distinct byte strings.",
 		Assume: []string{},
 		Eval:   c10Eval, Gen: c10Gen,
 	})
